@@ -10,9 +10,14 @@
                             for 1..6: asn1.Unmarshal into the repository's struct (schema matcher), then l_desc
      route_der              parseDERData (trial order);  asn1_file / b64_file / route_pem: the three parsers
      inspect_file           file.Inspect over the regenerated format table
-     der_of_kind k d        d is exactly one DER SEQUENCE, contains a byte that is no base64 character,
-                            is accepted by kind k's struct, and (k=3) has exactly two elements,
-                            (k=6) its q does not fit a Go int
+     der_of_kind k d        d is exactly one DER value of bytes; kinds 1..6: accepted by kind k's struct, and
+                            (k=3) it has exactly two elements, (k=6) its q does not fit a Go int;
+                            kind 0 (certificate, structure left to the x509 oracle): starts with 30, contains
+                            a byte that is no base64 character, a byte at offsets 1..7 is no hex digit
+                            (for kinds 1..6 these three facts are lemmas: key_shape, key_not_hex7)
+     uuid_oracle_ok so      the UUID sniffer (oracle) says yes only if uuid_possible holds: at most 45 bytes
+                            that TrimSpace cannot remove, and after a leading ASCII non-space byte other
+                            than u/U come seven hex digits (necessary condition read off uuid.Parse)
      cert_oracle_ok L k d   x509 accepts d iff k = 0
      reserved_in table n    the base name of n is one of the table's name patterns *)
 From WI Require Import Lib.Base Lib.Info Lib.Strings Model.Base64 Model.Dispatch Model.Render Model.Routes.
@@ -94,13 +99,23 @@ Theorem C05_b64_eq_der_parsers : forall L e w crlf trail d, bytes_ok d = true ->
 Proof. exact b64_file_eq_der. Qed.
 Print Assumptions C05_b64_eq_der_parsers.
 
-(* BASE64 = DER through the dispatcher, under any two non-reserved names.
-   IsUUID is an oracle: that neither presentation is a UUID is a hypothesis on it. *)
+(* routing: neither presentation can be taken for a UUID *)
+Theorem C05_b64_text_not_uuid : forall e w crlf trail d, bytes_ok d = true -> (34 <= length d)%nat ->
+  uuid_possible (b64_text e w crlf trail d) = false.
+Proof. exact b64_text_not_uuid. Qed.
+Print Assumptions C05_b64_text_not_uuid.
+
+Theorem C05_der_not_uuid : forall k d, der_of_kind k d = true -> uuid_possible d = false.
+Proof. exact der_not_uuid. Qed.
+Print Assumptions C05_der_not_uuid.
+
+(* BASE64 = DER through the dispatcher, under any two non-reserved names, for objects of at
+   least 34 bytes (every key of 256 bits or more).  The UUID sniffer is an oracle assumed to
+   satisfy the necessary condition [uuid_oracle_ok]. *)
 Theorem C05_b64_eq_der : forall L pem_blocks sniff_other parse_other n1 n2 k d e w crlf trail, (k <= 6)%nat ->
-  der_of_kind k d = true -> cert_oracle_ok L k d = true ->
+  der_of_kind k d = true -> cert_oracle_ok L k d = true -> (34 <= length d)%nat ->
   reserved_in table n1 = false -> reserved_in table n2 = false ->
-  sniff_other (bs "IsUUID") (b64_text e w crlf trail d) = false ->
-  sniff_other (bs "IsUUID") d = false ->
+  uuid_oracle_ok sniff_other ->
   inspect_file L pem_blocks sniff_other parse_other n1 (b64_text e w crlf trail d)
   = inspect_file L pem_blocks sniff_other parse_other n2 d.
 Proof. exact b64_eq_der. Qed.
@@ -109,7 +124,7 @@ Print Assumptions C05_b64_eq_der.
 (* ... and that common description is the one of the kind's parser *)
 Theorem C05_der_described_by_kind : forall L pem_blocks sniff_other parse_other n k d, (k <= 6)%nat ->
   der_of_kind k d = true -> cert_oracle_ok L k d = true ->
-  reserved_in table n = false -> sniff_other (bs "IsUUID") d = false ->
+  reserved_in table n = false -> uuid_oracle_ok sniff_other ->
   forall i, parse_kind L k d = Ok i -> i_desc i <> i_desc unknown_asn1 ->
   inspect_file L pem_blocks sniff_other parse_other n d = Ok i.
 Proof. exact der_described_by_kind. Qed.
